@@ -2,10 +2,13 @@
 
 use crate::engine::*;
 use crate::worlda::{KeyCampaign, Source};
+use crate::worldb::{LoopCampaign, SourceB};
+use crate::wiresim::WireCampaign;
+use crate::storesim::StoreCampaign;
 use crate::rng::mix;
 
 pub fn claimed() -> Vec<&'static str> {
-  vec!["C01", "C02", "C03", "C04", "C05", "C06", "C07", "C08", "C09", "C19"]
+  vec!["C01", "C02", "C03", "C04", "C05", "C06", "C07", "C08", "C09", "C10", "C11", "C12", "C14", "C18", "C19", "C20"]
 }
 
 fn a_assumptions(uses_r: bool) -> Vec<String> {
@@ -18,9 +21,22 @@ fn a_assumptions(uses_r: bool) -> Vec<String> {
   v
 }
 
+fn b_assumptions() -> Vec<String> {
+  vec![
+    "schedules, histories, layouts and fault placements are sampled (seeded search), not enumerated".to_string(),
+    "the simulated driver models epoll edge-triggered readiness, device removal as End, signals as Interrupted, and a clock that moves only inside driver calls and the simulated back-off sleep".to_string(),
+    "not injected: an early TimedOut while a timer is armed (epoll_wait cannot produce it), short writes to uinput".to_string(),
+    "RefLoop (sim/src/loopsim.rs check_trace) replays the recorded trace against its own real Mapper; it is part of the trusted base".to_string(),
+    "Special repeats are generated with delay >= 0 ms and interval >= 1 ms".to_string(),
+  ]
+}
+
 pub fn spec_for(id: &str) -> Option<CheckSpec> {
   let k = |p: &'static str, s: Source, q: u64, t: u64| KeyCampaign::new(p, s, q, t);
   let spec = |property: &'static str, campaigns: Vec<Box<dyn Campaign>>, uses_r: bool| CheckSpec { property, level: "exploration", campaigns, assumptions: a_assumptions(uses_r), exhaustive_note: None };
+  let b = |p: &'static str, s: SourceB, q: u64, t: u64| LoopCampaign::new(p, s, q, t);
+  let bspec = |property: &'static str, campaigns: Vec<Box<dyn Campaign>>| CheckSpec { property, level: "exploration", campaigns, assumptions: b_assumptions(), exhaustive_note: None };
+  const QB: u64 = 400_000; const TB: u64 = 60_000_000;
   const Q: u64 = 600_000; const QS: u64 = 200_000;
   const T: u64 = 120_000_000; const TS: u64 = 20_000_000;
   Some(match id {
@@ -33,7 +49,17 @@ pub fn spec_for(id: &str) -> Option<CheckSpec> {
     "C07" => spec("C07", vec![Box::new(k("C07", Source::Random, Q, T).norepeat().special()), Box::new(k("C07", Source::Shipped, QS, TS))], true),
     "C08" => spec("C08", vec![Box::new(k("C08", Source::Dist, Q, T).absorbing(Some(true)))], true),
     "C09" => spec("C09", vec![Box::new(k("C09", Source::Random, Q, T).special()), Box::new(k("C09", Source::Shipped, QS, TS))], true),
-    "C19" => spec("C19", vec![Box::new(k("C19", Source::Random, Q, T).resets()), Box::new(k("C19", Source::Shipped, QS, TS).resets())], false),
+    "C19" => spec("C19", vec![Box::new(k("C19", Source::Random, Q, T).resets()), Box::new(k("C19", Source::Shipped, QS, TS).resets()), Box::new(b("C19", SourceB::Random, QB / 2, TB / 4))], false),
+    "C10" => bspec("C10", vec![Box::new(b("C10", SourceB::Random, QB, TB)), Box::new(b("C10", SourceB::Shipped, QB / 4, TB / 4))]),
+    "C11" => bspec("C11", vec![Box::new(b("C11", SourceB::Random, QB, TB).special()), Box::new(b("C11", SourceB::Shipped, QB / 4, TB / 4))]),
+    "C12" => bspec("C12", vec![Box::new(b("C12", SourceB::Random, QB, TB).tablet()), Box::new(b("C12", SourceB::Shipped, QB / 4, TB / 4).tablet())]),
+    "C20" => { let mut s = bspec("C20", vec![Box::new(b("C20", SourceB::Random, 30_000, 3_000_000).sweep()), Box::new(b("C20", SourceB::Shipped, 8_000, 600_000).sweep())]); s.level = "fault_enumeration"; s }
+    "C18" => CheckSpec { property: "C18", level: "exploration", campaigns: vec![Box::new(WireCampaign::new(true, 0, 0)), Box::new(WireCampaign::new(false, 150_000, 20_000_000)), Box::new(b("C18", SourceB::Random, 30_000, 3_000_000).hybrid().tablet())],
+      assumptions: vec!["libc::input_event for this target (x86-64: 24 bytes) is the kernel's record layout".into(), "KeyCode discriminants are the kernel key numbers".into(), "an evdev node delivers whole records; EOF and short reads do not occur on it (device removal is ENODEV, injected in world B)".into(), "batches and interleavings are sampled; the sweep over all key codes x {press, release} is exhaustive".into()],
+      exhaustive_note: Some("campaign wiresim-all-codes enumerates every key code the tool knows x {press, release, inside a batch}".into()) },
+    "C14" => CheckSpec { property: "C14", level: "exploration", campaigns: vec![Box::new(StoreCampaign::new(true, 0, 0)), Box::new(StoreCampaign::new(false, 250_000, 30_000_000))],
+      assumptions: vec!["the byte-string quantifier is sampled from a grammar of valid and near-valid layout programs plus storage faults; only the truncation sweep over the shipped texts is exhaustive".into(), "a panic is observed as an unwind (catch_unwind); aborts cannot occur in this code (no allocation of attacker-chosen size)".into(), "'loading' is layout_loading::load_layout_from_file, the function main.rs and the systemd service use".into()],
+      exhaustive_note: Some("campaign storesim-truncation-sweep enumerates every truncation offset of every shipped layout text".into()) },
     _ => return None,
   })
 }
